@@ -53,13 +53,14 @@ func (r *ascii85Reader) Read(p []byte) (n int, err error) {
 	if len(p) == 0 {
 		return 0, nil
 	}
-	if r.immediateError != nil {
-		return 0, r.immediateError
-	}
-
+	// Decoded bytes which did not fit into the caller's buffer are delivered
+	// first; an error (including io.EOF) is only reported once they are gone.
 	if len(r.leftover) > 0 {
 		n = copy(p, r.leftover)
 		r.leftover = r.leftover[n:]
+	}
+	if r.immediateError != nil {
+		return r.result(n)
 	}
 
 	for n < len(p) {
@@ -88,7 +89,7 @@ func (r *ascii85Reader) Read(p []byte) (n int, err error) {
 				} else {
 					r.immediateError = errors.New("invalid end marker in ASCII85 stream")
 				}
-				return n, r.immediateError
+				return r.result(n)
 			}
 
 			if c >= '!' && c < '!'+85 {
@@ -144,6 +145,15 @@ func (r *ascii85Reader) Read(p []byte) (n int, err error) {
 				break // need to re-check whether the buffer is full
 			}
 		}
+	}
+	return n, r.immediateError
+}
+
+// result returns n together with the latched error, holding the error back
+// while decoded bytes are still waiting to be delivered.
+func (r *ascii85Reader) result(n int) (int, error) {
+	if len(r.leftover) > 0 {
+		return n, nil
 	}
 	return n, r.immediateError
 }
